@@ -134,7 +134,7 @@ def run(A, rep, tier):
     import copy as _copy
     from ..analysis import pathparts as _pp
     loc_text = norm(_Id().visit(_copy.deepcopy(st[0].value))) if len(st) == 1 else "?"
-    rep.check(len(st) == 1 and st[0] in bi.node.body and _pp(_Id().visit(_copy.deepcopy(st[0].value))) == ["ID.path", "f.task_output_dir(ID)"], "RX2", "location = path / dirname", bi.node,
+    rep.check(len(st) == 1 and st[0] in bi.node.body and _pp(_Id().visit(_copy.deepcopy(A.expand(st[0].value, bi, stop=bi.params)))) == ["ID.path", "f.task_output_dir(ID)"], "RX2", "location = path / dirname", bi.node,
               "", "the output location is not identifier.path / task_output_dir(identifier)")
     go = A.fn("task_types.base.TaskType.get_output_path")
     r = [x for x in walk_local(go.node) if isinstance(x, ast.Return)]
@@ -155,10 +155,12 @@ def run(A, rep, tier):
     det = "from_str does not return cls(path=…, name=match.group('name'))"
     if ok:
         kw = A.kwmap(r[0].value)
-        okn = "name" in kw and norm(kw["name"]) == "match.group('name')"
+        okn = "name" in kw and A.xtext(kw["name"], fs, stop=["match"]) == "match.group('name')"
         pv = A.rvalues(fs, kw.get("path", ast.Constant(None)), r[0], keep=lambda a: a.startswith("none(") and a != "none(match)", depth=2, calls=True)
         pv = [(c, v.replace("match.group('path')", "path_str")) for c, v in pv]
         pv = [(frozenset((a.replace("match.group('path')", "path_str"), p_) for a, p_ in c), v) for c, v in pv]
+        # the segments are strings (from str.split): "non-empty" and "truthy" are the same filter
+        pv = [(c, v.replace("path_str.split('/') if _v0))", "path_str.split('/') if len(_v0) > 0))")) for c, v in pv]
         alt = {(frozenset({("none(path_str)", True)}), "pathlib.Path()"),
                (frozenset({("none(path_str)", False)}), "pathlib.Path(*(_v0 for _v0 in path_str.split('/') if len(_v0) > 0))")}
         ps = A.single_def_value(fs, "path_str")
